@@ -300,16 +300,19 @@ def _known_variant_at_end(blk, local):
     return v
 
 
+VARIANT_NO = {"Ok": 0, "Err": 1}
+
+
 def _transfer(blk, st):
-    """abstract state {local: variant} through a block; returns the out-state"""
+    """abstract state {local: discriminant value} through a block; returns the out-state"""
     st = dict(st)
     for s in blk["stmts"]:
         pl = s["place"]
         l = pl["local"]
         if s["k"] == "assign" and not pl["proj"]:
             rv = s["rv"]
-            if rv["k"] == "aggregate" and (rv.get("adt") or "").endswith(RESULT) and rv.get("variant_name") in ("Ok", "Err"):
-                st[l] = rv["variant_name"]
+            if rv["k"] == "aggregate" and (rv.get("adt") or "").endswith(RESULT) and rv.get("variant_name") in VARIANT_NO:
+                st[l] = VARIANT_NO[rv["variant_name"]]
                 continue
             if rv["k"] == "use" and rv["op"].get("k") in ("move", "copy") and not rv["op"]["place"]["proj"] and rv["op"]["place"]["local"] in st:
                 st[l] = st[rv["op"]["place"]["local"]]
@@ -320,87 +323,126 @@ def _transfer(blk, st):
         dl = t["dest"]["local"]
         v = None
         if (t["callee"].get("def") or "").endswith("ops::Try::branch") and not t["dest"]["proj"] and t["args"] and t["args"][0].get("k") in ("move", "copy") and not t["args"][0]["place"]["proj"]:
-            a = st.get(t["args"][0]["place"]["local"])
-            v = {"Ok": "Continue", "Err": "Break"}.get(a)
-        if v:
+            v = st.get(t["args"][0]["place"]["local"])  # Ok -> Continue (0), Err -> Break (1)
+        if v is not None:
             st[dl] = v
         else:
             st.pop(dl, None)
     return st
 
 
-DISCR_OF = {"Ok": 0, "Err": 1, "Continue": 0, "Break": 1}
+def _switch_subject(blk):
+    """(local L, discr local) if the block ends in a switch on `discriminant(L)` computed in this block"""
+    t = blk["term"]
+    if t["k"] != "switch" or t["discr"].get("k") not in ("move", "copy") or t["discr"]["place"]["proj"]:
+        return None
+    dl = t["discr"]["place"]["local"]
+    src = None
+    for s in blk["stmts"]:
+        if s["k"] == "assign" and s["place"]["local"] == dl and not s["place"]["proj"]:
+            src = s["rv"]["place"]["local"] if (s["rv"]["k"] == "discr" and not s["rv"]["place"]["proj"]) else None
+        elif src is not None and s["place"]["local"] == src:
+            src = None
+    return src
 
 
-def thread_results(body, joins=None, max_clones=400):
+def thread_results(body, types=None, max_clones=400):
     """Forward jump threading on known Result / ControlFlow variants: trivial blocks reached with different known
     variants are duplicated per variant, and discriminant switches on a known variant become gotos."""
     m = body["mir"]
     blocks = m["blocks"]
     clones = 0
     changed_any = False
+
+    def two_variant(l):
+        if types is None:
+            return False
+        s = types[m["locals"][l]["ty"]].get("s", "")
+        return s.startswith("std::result::Result<") or s.startswith("std::ops::ControlFlow<")
+
     for _ in range(600):
-        # forward must-analysis
+        # forward must-analysis, edge-sensitive at discriminant switches
         n = len(blocks)
         preds = [[] for _ in range(n)]
         for i, b in enumerate(blocks):
             for x in set(_succs(b["term"])):
                 preds[x].append(i)
         IN = [None] * n
-        OUT = [None] * n
+        EOUT = {}
         IN[0] = {}
         work = [0]
+        seen_out = {}
         while work:
             i = work.pop()
             o = _transfer(blocks[i], IN[i])
-            if OUT[i] is not None and o == OUT[i]:
+            if seen_out.get(i) == o:
                 continue
-            OUT[i] = o
-            for x in set(_succs(blocks[i]["term"])):
+            seen_out[i] = o
+            subj = _switch_subject(blocks[i])
+            t = blocks[i]["term"]
+            for x in set(_succs(t)):
+                oe = o
+                if subj is not None and two_variant(subj):
+                    vals = [v for v, bb in t["targets"] if bb == x]
+                    if x != t["otherwise"] and len(vals) == 1:
+                        oe = dict(o)
+                        oe[subj] = vals[0]
+                    elif x == t["otherwise"] and not vals and sorted(v for v, _ in t["targets"]) in ([0], [1]):
+                        oe = dict(o)
+                        oe[subj] = 1 - t["targets"][0][0]
+                EOUT[(i, x)] = oe
                 if IN[x] is None:
-                    IN[x] = dict(o)
+                    IN[x] = dict(oe)
                     work.append(x)
                 else:
-                    meet = {k: v for k, v in IN[x].items() if o.get(k) == v}
+                    meet = {k: v for k, v in IN[x].items() if oe.get(k) == v}
                     if meet != IN[x]:
                         IN[x] = meet
                         work.append(x)
         changed = False
         # resolve switches on known discriminants
         for i, b in enumerate(blocks):
-            t = b["term"]
-            if IN[i] is None or t["k"] != "switch" or t["discr"].get("k") not in ("move", "copy"):
+            if IN[i] is None:
                 continue
-            dl = t["discr"]["place"]["local"]
-            src = None
+            subj = _switch_subject(b)
+            if subj is None:
+                continue
+            t = b["term"]
             st = dict(IN[i])
             for s in b["stmts"]:
-                if s["k"] == "assign" and s["place"]["local"] == dl and s["rv"]["k"] == "discr" and not s["rv"]["place"]["proj"]:
-                    src = st.get(s["rv"]["place"]["local"])
                 st = _transfer({"stmts": [s], "term": {"k": "goto", "target": 0}}, st)
-            if src in DISCR_OF:
-                val = DISCR_OF[src]
+                if s["k"] == "assign" and s["rv"]["k"] == "discr":
+                    break
+            # value of the subject when its discriminant was read
+            val = None
+            st2 = dict(IN[i])
+            for s in b["stmts"]:
+                if s["k"] == "assign" and s["rv"]["k"] == "discr" and s["rv"]["place"]["local"] == subj and s["place"]["local"] == t["discr"]["place"]["local"]:
+                    val = st2.get(subj)
+                st2 = _transfer({"stmts": [s], "term": {"k": "goto", "target": 0}}, st2)
+            if val is not None:
                 tgt = next((bb for vv, bb in t["targets"] if vv == val), t["otherwise"])
-                b["term"] = {"k": "goto", "target": tgt, "l": t.get("l", 0), "x": False}
-                changed = True
+                if len(set(_succs(t))) > 1:
+                    b["term"] = {"k": "goto", "target": tgt, "l": t.get("l", 0), "x": False}
+                    changed = True
         if changed:
             changed_any = True
             continue
-        # split trivial join blocks whose predecessors disagree on a known variant
+        # split trivial join blocks whose predecessors disagree on a known variant that matters downstream
         for i, b in enumerate(blocks):
             if i == 0 or IN[i] is None or len(preds[i]) < 2 or b.get("cleanup") or len(b["stmts"]) > 3:
                 continue
             t = b["term"]
-            if not (t["k"] in ("goto", "switch") or (t["k"] == "call" and (t["callee"].get("def") or "").endswith("ops::Try::branch"))):
+            if not (t["k"] in ("goto", "switch", "return") or (t["k"] == "call" and (t["callee"].get("def") or "").endswith("ops::Try::branch"))):
                 continue
             rel = _relevant_locals(blocks, i, preds)
             if not rel:
                 continue
             groups = {}
             for p in preds[i]:
-                if OUT[p] is None:
+                if (p, i) not in EOUT:
                     continue
-                key = tuple(sorted((k, v) for k, v in OUT[p].items() if k in rel))
+                key = tuple(sorted((k, v) for k, v in EOUT[(p, i)].items() if k in rel))
                 groups.setdefault(key, []).append(p)
             if len(groups) < 2 or not any(k for k in groups):
                 continue
@@ -431,7 +473,7 @@ def _relevant_locals(blocks, i, preds):
         b = blocks[cur]
         chain.append(cur)
         t = b["term"]
-        if t["k"] == "switch":
+        if t["k"] in ("switch", "return"):
             break
         nxt = t.get("target") if t["k"] in ("goto", "call") else None
         if nxt is None or len(b["stmts"]) > 3 or len(preds[nxt]) != 1:
@@ -440,7 +482,7 @@ def _relevant_locals(blocks, i, preds):
                 if nxt is not None and len(blocks[nxt]["stmts"]) <= 3:
                     chain.append(nxt)
                     cur = nxt
-                    if blocks[nxt]["term"]["k"] == "switch":
+                    if blocks[nxt]["term"]["k"] in ("switch", "return"):
                         break
                     continue
             break
@@ -455,6 +497,8 @@ def _relevant_locals(blocks, i, preds):
     t = last["term"]
     if t["k"] == "switch" and t["discr"].get("k") in ("move", "copy"):
         want.add(t["discr"]["place"]["local"])
+    if t["k"] == "return":
+        want.add(0)
     for ci in reversed(chain):
         b = blocks[ci]
         tt = b["term"]
@@ -483,6 +527,135 @@ def _pred_counts(blocks):
     for b in blocks:
         for s in set(_succs(b["term"])):
             n[s] = n.get(s, 0) + 1
+    return n
+
+
+# ------------------------------------------------------------------------------------------------ is_ok / is_err
+
+def rewrite_is_ok(d):
+    """`if r.is_ok()` / `if r.is_err()` on a Result held in a local is a test of its discriminant: rewrite the boolean
+    switch into a discriminant switch (the form `match r { Ok(..) => .., Err(..) => .. }` has), so that every analysis
+    sees the same Ok/Err edges for both spellings."""
+    isize_ty = next((i for i, t in enumerate(d["types"]) if t.get("s") == "isize"), None)
+    if isize_ty is None:
+        return 0
+    n = 0
+    for b in d["bodies"]:
+        if "mir" not in b:
+            continue
+        m = b["mir"]
+        blocks = m["blocks"]
+        npred = _pred_counts(blocks)
+        for blk in list(blocks):
+            t = blk["term"]
+            if t["k"] != "call" or t.get("target") is None or t["dest"]["proj"]:
+                continue
+            nm = t["callee"].get("def") or ""
+            if not (nm.endswith("result::Result::<T, E>::is_ok") or nm.endswith("result::Result::<T, E>::is_err")):
+                continue
+            if not t["args"] or t["args"][0].get("k") not in ("move", "copy") or t["args"][0]["place"]["proj"]:
+                continue
+            rl = t["args"][0]["place"]["local"]
+            # the reference must have been taken in this block from a whole local
+            src = None
+            for s in blk["stmts"]:
+                if s["k"] == "assign" and s["place"]["local"] == rl and not s["place"]["proj"]:
+                    src = s["rv"]["place"] if (s["rv"]["k"] == "ref" and not s["rv"]["place"]["proj"]) else None
+            if src is None:
+                continue
+            nb = blocks[t["target"]]
+            st = nb["term"]
+            if npred.get(t["target"], 0) != 1 or st["k"] != "switch" or st["discr"].get("k") not in ("move", "copy") or st["discr"]["place"]["proj"] or st["discr"]["place"]["local"] != t["dest"]["local"]:
+                continue
+            if any(s["place"]["local"] in (src["local"], t["dest"]["local"]) for s in nb["stmts"]):
+                continue
+            # boolean switch: targets [[0, F]] otherwise T
+            if [v for v, _ in st["targets"]] != [0]:
+                continue
+            f_t, t_t = st["targets"][0][1], st["otherwise"]
+            dl = len(m["locals"])
+            m["locals"].append({"ty": isize_ty, "mut": True})
+            nb["stmts"].append({"k": "assign", "place": {"local": dl, "proj": []}, "rv": {"k": "discr", "place": {"local": src["local"], "proj": []}}, "l": st.get("l", 0), "x": False})
+            is_ok = nm.endswith("is_ok")
+            ok_t, err_t = (t_t, f_t) if is_ok else (f_t, t_t)
+            nb["term"] = {"k": "switch", "discr": {"k": "move", "place": {"local": dl, "proj": []}}, "targets": [[0, ok_t]], "otherwise": err_t, "l": st.get("l", 0), "x": False}
+            n += 1
+    return n
+
+
+def thread_all(d):
+    n = 0
+    for b in d["bodies"]:
+        if "mir" in b and b.get("kind") in ("Fn", "AssocFn", "Closure"):
+            if thread_results(b, d["types"]):
+                n += 1
+    return n
+
+
+# ------------------------------------------------------------------------------------------------ split_at
+
+def rewrite_split_at(d):
+    """`let (a, b) = x.split_at(n)` is `(&x[..n], &x[n..])` — same values, same panic condition. Rewrite the call into
+    the two Index calls the slicing syntax produces, so every analysis of slices (cursor discipline, length proofs,
+    descriptors) sees one spelling."""
+    tys = d["types"]
+    t_to = next((i for i, t in enumerate(tys) if t.get("s") == "std::ops::RangeTo<usize>"), None)
+    t_from = next((i for i, t in enumerate(tys) if t.get("s") == "std::ops::RangeFrom<usize>"), None)
+    if t_to is None or t_from is None:
+        return 0
+    templ = {}
+    for b in d["bodies"]:
+        if "mir" not in b:
+            continue
+        for blk in b["mir"]["blocks"]:
+            t = blk["term"]
+            if t["k"] == "call" and t["callee"].get("def") == "std::ops::Index::index":
+                templ.setdefault(t["callee"].get("args"), (t["callee"], t.get("func")))
+    n = 0
+    for b in d["bodies"]:
+        if "mir" not in b:
+            continue
+        m = b["mir"]
+        for bi in range(len(m["blocks"])):
+            blk = m["blocks"][bi]
+            t = blk["term"]
+            if t["k"] != "call" or blk.get("cleanup") or t.get("target") is None or t["dest"]["proj"]:
+                continue
+            if not (t["callee"].get("def") or "").endswith("slice::<impl [T]>::split_at") or len(t["args"]) != 2:
+                continue
+            elem = t["callee"].get("args")
+            k_to = "[%s, std::ops::RangeTo<usize>]" % elem
+            k_from = "[%s, std::ops::RangeFrom<usize>]" % elem
+            x, nn = t["args"]
+            if k_to not in templ or k_from not in templ or x.get("k") not in ("move", "copy") or x["place"]["proj"]:
+                continue
+            xt = m["locals"][x["place"]["local"]]["ty"]
+            line = t.get("l", 0)
+
+            def cp(o):
+                o = copy.deepcopy(o)
+                if o.get("k") == "move":
+                    o["k"] = "copy"
+                return o
+            base = len(m["locals"])
+            a_l, b_l, r1, r2 = base, base + 1, base + 2, base + 3
+            m["locals"] += [{"ty": xt, "mut": True}, {"ty": xt, "mut": True}, {"ty": t_to, "mut": True}, {"ty": t_from, "mut": True}]
+            k2, k3 = len(m["blocks"]), len(m["blocks"]) + 1
+
+            def rng(adt, vn, fld, op):
+                return {"k": "aggregate", "agg": "adt", "adt": adt, "variant": 0, "variant_name": vn, "field_names": [fld], "ops": [op]}
+
+            def call(key, recv, r, dest, target):
+                c, f = templ[key]
+                return {"k": "call", "callee": copy.deepcopy(c), "func": copy.deepcopy(f), "args": [recv, {"k": "move", "place": {"local": r, "proj": []}}],
+                        "dest": {"local": dest, "proj": []}, "target": target, "unwind": t.get("unwind"), "l": line, "x": False}
+            blk["stmts"].append({"k": "assign", "place": {"local": r1, "proj": []}, "rv": rng("std::ops::RangeTo", "RangeTo", "end", cp(nn)), "l": line, "x": False})
+            blk["term"] = call(k_to, cp(x), r1, a_l, k2)
+            m["blocks"].append({"stmts": [{"k": "assign", "place": {"local": r2, "proj": []}, "rv": rng("std::ops::RangeFrom", "RangeFrom", "start", cp(nn)), "l": line, "x": False}],
+                                "term": call(k_from, cp(x), r2, b_l, k3), "cleanup": False})
+            m["blocks"].append({"stmts": [{"k": "assign", "place": copy.deepcopy(t["dest"]), "rv": {"k": "aggregate", "agg": "tuple", "ops": [{"k": "move", "place": {"local": a_l, "proj": []}}, {"k": "move", "place": {"local": b_l, "proj": []}}]}, "l": line, "x": False}],
+                                "term": {"k": "goto", "target": t["target"], "l": line, "x": False}, "cleanup": False})
+            n += 1
     return n
 
 
@@ -522,6 +695,7 @@ def normalize(d, base_idx, log=None):
     overridden = {b.get("trait_item") for b in d["bodies"] if b.get("trait_item")}
     inlinable = {h for h in helpers if not reaches(h, h) and len(bodies[h]["mir"]["blocks"]) <= MAX_INLINE_BLOCKS and h not in overridden}
     done = []
+    touched = set()
     for _ in range(MAX_ROUNDS):
         any_change = False
         for p, b in list(bodies.items()):
@@ -542,7 +716,7 @@ def normalize(d, base_idx, log=None):
                         any_change = True
                 bi += 1
             if joins:
-                thread_results(b, joins)
+                touched.add(p)
         if not any_change:
             break
     # drop the helper bodies (and re-parent their closures to a caller, for rules that look at closures of a function)
